@@ -9,8 +9,9 @@
 (*   kind = "mut":  args, style, m (mutation), syms; the text must be        *)
 (*                  Mutated(Text(args, style), m); out as for "tag"          *)
 (*   kind = "grow": counts c1, c2, c4 of interpreter line events for a unit  *)
-(*                  repeated n, 2n, 4n times: c4 * 2^5 must not exceed       *)
-(*                  c1 * 4^5 ... i.e. (c4/c1)^2 <= 4^5 (exponent <= 2.5)     *)
+(*                  repeated n, 2n, 4n times, and the three outcomes: the    *)
+(*                  exponent k of c ~ n^k between n and 4n must be <= 2.5,   *)
+(*                  i.e. c4 <= 4^2.5 * c1 = 32 * c1                          *)
 (* Accepted iff the input belongs to the modelled input space and every      *)
 (* outcome is in ParseOutcomes ("ok" / "tse").  One verdict per record.      *)
 (***************************************************************************)
@@ -30,7 +31,7 @@ GrowthOK(e) == e.kind = "grow" => e.c4 <= 32 * e.c1
 
 Verdict(e) ==
   IF ~InSpace(e) THEN "bad:input_space"
-  ELSE IF e.kind # "grow" /\ BadOutcomes(e) # {} THEN "bad:outcome_" \o ToString(CHOOSE i \in BadOutcomes(e) : TRUE)
+  ELSE IF BadOutcomes(e) # {} THEN "bad:outcome_" \o ToString(CHOOSE i \in BadOutcomes(e) : TRUE)
   ELSE IF ~GrowthOK(e) THEN "bad:growth"
   ELSE "ok"
 
